@@ -110,11 +110,12 @@ def main():
                     shutil.copy(rp, os.path.join(VERIF, "seeded", name, "replay_%s.json" % c))
         dst = os.path.join(VERIF, "seeded", name)
         os.makedirs(dst, exist_ok=True)
-        shutil.copy(patch, os.path.join(dst, "patch.diff"))
-        if os.path.exists(demo):
-            shutil.copy(demo, os.path.join(dst, "demo.py"))
-        if os.path.exists(os.path.join(src, "notes.md")):
-            shutil.copy(os.path.join(src, "notes.md"), os.path.join(dst, "notes.md"))
+        if os.path.realpath(src) != os.path.realpath(dst):
+            shutil.copy(patch, os.path.join(dst, "patch.diff"))
+            if os.path.exists(demo):
+                shutil.copy(demo, os.path.join(dst, "demo.py"))
+            if os.path.exists(os.path.join(src, "notes.md")):
+                shutil.copy(os.path.join(src, "notes.md"), os.path.join(dst, "notes.md"))
         old = {}
         mp = os.path.join(dst, "meta.json")
         if os.path.exists(mp):
